@@ -44,6 +44,8 @@ structure CallRec where
 structure MemStore where
   size : Option Nat
   table : List (NHash × Val)
+  /-- a disk store keys entries by the digest of the pickled hash: structural equality, not Python `==` -/
+  exact : Bool := false
   deriving Repr, Inhabited
 
 /-- Equality of `NodeHash.value` tuples as Python compares them (`==` on leaves is `pyEq`). -/
@@ -59,11 +61,13 @@ where
     | x :: xs, y :: ys => hashKeyEq x y && goList xs ys
     | _, _ => false
 
+def MemStore.keyEq (s : MemStore) (a b : NHash) : Bool := if s.exact then a == b else hashKeyEq a b
+
 def MemStore.find? (s : MemStore) (key : NHash) : Option (NHash × Val) :=
-  s.table.find? fun (k, _) => hashKeyEq k key
+  s.table.find? fun (k, _) => s.keyEq k key
 
 def MemStore.remove (s : MemStore) (key : NHash) : List (NHash × Val) :=
-  s.table.filter fun (k, _) => !hashKeyEq k key
+  s.table.filter fun (k, _) => !s.keyEq k key
 
 /-- `MemoryCache.get`: `key in cache` does not touch the recency, `cache[key]` moves to the front. -/
 def MemStore.get (s : MemStore) (key : NHash) : Option Val × MemStore :=
@@ -80,7 +84,7 @@ def MemStore.set (s : MemStore) (key : NHash) (v : Val) : MemStore :=
   match s.size with
   | none =>
     match s.find? key with
-    | some (k, _) => { s with table := s.table.map fun (k', v') => if hashKeyEq k' key then (k, v) else (k', v') }
+    | some (k, _) => { s with table := s.table.map fun (k', v') => if s.keyEq k' key then (k, v) else (k', v') }
     | none => { s with table := s.table ++ [(key, v)] }
   | some n =>
     match s.find? key with
